@@ -79,8 +79,15 @@ var rewritePkgs = []string{
 	"src.elv.sh/pkg/eval/vars",
 	"src.elv.sh/pkg/cli",
 	"src.elv.sh/pkg/edit/highlight",
+	"src.elv.sh/pkg/daemon",
+	"src.elv.sh/pkg/rpc",
+	"src.elv.sh/pkg/store",
 	"src.elv.sh/zzverif/h",
 }
+
+// replaceSpec routes the daemon package's sockets, socket-file operations,
+// pid and signal delivery to the simulated namespace / process table.
+const replaceSpec = "src.elv.sh/pkg/daemon:net.Listen=NetListen,net.Dial=NetDial,os.Lstat=FSLstat,os.Remove=FSRemove,syscall.Getpid=Getpid,os.Process.Signal=ProcSignal"
 
 const hbSpec = "src.elv.sh/pkg/eval.Evaler.global,src.elv.sh/pkg/eval.Evaler.builtin,src.elv.sh/pkg/eval.Evaler.deprecations,src.elv.sh/pkg/eval.Evaler.modules,src.elv.sh/pkg/eval.Evaler.evalCount,maptype:map[string]*src.elv.sh/pkg/eval.Ns"
 
@@ -136,7 +143,7 @@ func prepare(tag string) (string, string) {
 	}
 	must(os.WriteFile(filepath.Join(root, "go.mod"), append(gm, add...), 0o644))
 	// Instrument.
-	args := append([]string{"-root", root, "-hb", hbSpec}, rewritePkgs...)
+	args := append([]string{"-root", root, "-hb", hbSpec, "-replace", replaceSpec}, rewritePkgs...)
 	must(run(root, filepath.Join(verifDir, "bin", "simrewrite"), args...))
 	bin := filepath.Join(scratch, "h.test")
 	must(run(root, goBin(), "test", "-c", "-trimpath", "-tags", "verif", "-o", bin, "./zzverif/h"))
